@@ -155,6 +155,9 @@ class ObjCTypesBackend(ObjCBaseBackend):
         with self.output_to_relative_path('DBSDKImportsGenerated.h'):
             self._generate_all_imports(api)
 
+        # (a fresh table for each run: the class-level one would carry the types
+        # of specs compiled earlier in the same process)
+        self.obj_name_to_namespace = {}
         for namespace in api.namespaces.values():
             for data_type in namespace.linearize_data_types():
                 self.obj_name_to_namespace[data_type.name] = fmt_class_prefix(
